@@ -534,11 +534,10 @@ def judge(drv, before, after, op, raised):
                and all((id(x) in olda) != (id(y) in olda) for x, y in after["ends"][nb:]))
         if not okk:
             out.append(("C05:add_hs:effect", f"{op}: something other than new hydrogens, each bonded to an existing atom, was changed"))
-    if k == "add_hs" and raised and not same and (op[1] is None or len(op[1]) < 2):
-        # no arguments = every atom of the molecule: reported under its own signature (a later atom can fail after
-        # earlier ones were completed, like an explicit multi-target call)
-        out.append(("C05:failed-op-changed-state:add_hs" + (":all-atoms" if op[1] is None else ""),
-                    f"{op} raised but the molecule was modified"))
+    if k == "add_hs" and raised and not same and op[1] is not None and len(op[1]) < 2:
+        # single-target calls only: no arguments = every atom of the molecule = a multi-target call, where a later atom can fail
+        # after earlier ones were completed; the molecule stays aligned, which is all the property asks (DESIGN C05 'Partial')
+        out.append(("C05:failed-op-changed-state:add_hs", f"{op} raised but the molecule was modified"))
     if k in ("connect", "append_bond", "append_bonds", "del_bond") and ids_after != [id(a) for a in before["atoms"]]:
         out.append((f"C05:bond-op-changed-atoms:{k}", f"{op}: a bond operation changed the atom list"))
     if k in ("sub", "adopt") and (ids_after != [id(a) for a in before["atoms"]] or before["rows"] != after["rows"]
